@@ -6,9 +6,10 @@
 //! plain `And2` / `Not` cells so the existing postpass can fuse them
 //! into compound library primitives.
 //!
-//! Only combinational cells are touched — FFs are preserved verbatim
-//! across the round-trip; their Q outputs enter the AIG as primary
-//! inputs and their D inputs become sinks.
+//! Only combinational cells are touched — FFs and RAM macros are
+//! preserved verbatim across the round-trip; FF Q outputs and RAM
+//! read-data nets enter the AIG as primary inputs, FF D inputs and the
+//! nets a RAM consumes become sinks.
 
 use std::collections::HashSet;
 
@@ -38,10 +39,14 @@ pub fn aigify(gate: &GateModule) -> AigModule {
         let edge = match gate.nets[net as usize].driver {
             NetDriver::Const(false) => AigEdge::CONST0,
             NetDriver::Const(true) => AigEdge::CONST1,
-            NetDriver::PortInput | NetDriver::FfQ(_) | NetDriver::Undriven => {
+            NetDriver::PortInput
+            | NetDriver::FfQ(_)
+            | NetDriver::RamRead(..)
+            | NetDriver::Undriven => {
                 // Treat any non-combinational driver as a primary input
-                // for the AIG. The caller wires the same NetId back when
-                // re-emitting cells.
+                // for the AIG (a RAM read-data net is driven by the RAM
+                // macro, like an FF Q). The caller wires the same NetId
+                // back when re-emitting cells.
                 aig.add_input(net)
             }
             NetDriver::Cell(idx) => {
@@ -148,6 +153,16 @@ pub fn aigify(gate: &GateModule) -> AigModule {
         // the FF index by position.
         aig.add_sink(ff.d, edge);
     }
+    // RAM macros consume nets (clock, write addr/data/enable/mask, read
+    // addr) exactly like FF D pins: they root the traversal and are
+    // rewired on the way back. Sinks are added in
+    // `for_each_ram_input_net` order, after the FFs.
+    let mut ram_inputs: Vec<NetId> = Vec::new();
+    gate.for_each_ram_input_net(|n| ram_inputs.push(n));
+    for net in ram_inputs {
+        let edge = lower_net(&mut aig, gate, net);
+        aig.add_sink(net, edge);
+    }
 
     aig
 }
@@ -163,6 +178,7 @@ pub fn aig_to_cells(aig: &AigModule, original: &GateModule) -> GateModule {
         nets: Vec::new(),
         cells: Vec::new(),
         ffs: original.ffs.clone(),
+        ram_blocks: original.ram_blocks.clone(),
     };
 
     // Preserve the original net table layout so port / FF references
@@ -175,6 +191,7 @@ pub fn aig_to_cells(aig: &AigModule, original: &GateModule) -> GateModule {
                 NetDriver::Const(b) => NetDriver::Const(b),
                 NetDriver::PortInput => NetDriver::PortInput,
                 NetDriver::FfQ(idx) => NetDriver::FfQ(idx),
+                NetDriver::RamRead(ram, port, bit) => NetDriver::RamRead(ram, port, bit),
                 _ => NetDriver::Undriven,
             },
             origin: n.origin,
@@ -270,17 +287,22 @@ pub fn aig_to_cells(aig: &AigModule, original: &GateModule) -> GateModule {
 
     // Wire sinks: port outputs and FF D pins read from the edge's net.
     // Sinks appear in the order they were added: ports first, FFs
-    // second (see `aigify`).
+    // second, RAM input nets last (see `aigify`).
     let port_out_count: usize = original
         .ports
         .iter()
         .filter(|p| matches!(p.dir, PortDir::Output | PortDir::Inout))
         .map(|p| p.nets.len())
         .sum();
+    let ff_count = original.ffs.len();
+    let mut ram_nets: Vec<NetId> = Vec::new();
 
     for (i, sink) in aig.sinks.iter().enumerate() {
         let src_net = resolve_fanin(&mut out, &mut pos_net, &mut neg_net, sink.edge);
-        if i < port_out_count {
+        if i >= port_out_count + ff_count {
+            // RAM input: rewired below, in `for_each_ram_input_net` order.
+            ram_nets.push(src_net);
+        } else if i < port_out_count {
             let target = sink.target;
             if src_net != target {
                 // Buffer target so the worklist / postpass collapses the
@@ -299,6 +321,12 @@ pub fn aig_to_cells(aig: &AigModule, original: &GateModule) -> GateModule {
             out.ffs[ff_idx].d = src_net;
         }
     }
+    let mut ram_nets = ram_nets.into_iter();
+    out.for_each_ram_input_net_mut(|n| {
+        if let Some(src) = ram_nets.next() {
+            *n = src;
+        }
+    });
 
     out
 }
